@@ -3,7 +3,8 @@
  {'report': path, 'stderr_chunks': [[hex, delay_ms], ...], 'stdout_text': str, 'exit': int, 'hard_exit': bool}
 Reports argv, WAYLAND_DEBUG, LD_LIBRARY_PATH and fstat(1) to 'report', writes the chunks to fd 2, exits."""
 import json, os, sys, time
-plan = json.load(open(os.environ['VERIF_CHILD_PLAN']))
+with open(os.environ['VERIF_CHILD_PLAN']) as _f:
+    plan = json.load(_f)
 st = os.fstat(1)
 with open(plan['report'], 'w') as f:
     json.dump({'argv': sys.argv[1:], 'argv0': getattr(sys, 'orig_argv', [None])[0], 'script': sys.argv[0], 'WAYLAND_DEBUG': os.environ.get('WAYLAND_DEBUG'),
